@@ -96,10 +96,13 @@ ProvideChecks(s, d, curveMint, minted, hasSlip, slip, t) ==
 \* ---- withdrawal -------------------------------------------------------------------------------------------------
 WithdrawChecks(s, amt, t) ==
   LET amp == AmpNow(s)
-      pay == [n \in Idx |-> (s.res[n] ** amt) // s.S]
-  IN << <<"C04.withdraw.pays-the-proportional-share-rounded-down",
-           amt \preceq s.S /\ t.S = s.S -- amt /\ t.res = [n \in Idx |-> s.res[n] -- pay[n]]
-           /\ t.bal = [n \in Idx |-> s.bal[n] -- pay[n]] /\ t.fee = s.fee>>,
+      cap == [n \in Idx |-> (s.res[n] ** amt) // s.S]            \* the pro-rata share, rounded down
+      impl == [n \in Idx |-> MulFloor(s.res[n], FromRatio(amt, s.S))]   \* today's formula: 18-decimal ratio, floored twice
+      paid == [n \in Idx |-> s.res[n] -- t.res[n]]
+  IN << <<"C04.withdraw.pays-at-most-the-proportional-share",
+           amt \preceq s.S /\ t.S = s.S -- amt /\ t.fee = s.fee
+           /\ \A n \in Idx : t.res[n] \preceq s.res[n] /\ paid[n] \preceq cap[n] /\ t.bal[n] = s.bal[n] -- paid[n]>>,
+        <<"drift.withdraw.payout=floor(reserve*floor18(amt/S))", \A n \in Idx : paid[n] = impl[n]>>,
         \* D'/S' >= D/S with floors on both D: (floor D' + 1) * S > D' * S >= D * S' >= floor D * S'
         <<"C04.withdraw.invariant-per-LP-never-decreases",
            (DOf(s.res, amp) ** t.S) \preceq ((DOf(t.res, amp) ++ One) ** s.S)>>,
